@@ -1,24 +1,22 @@
-(* The decidable classes of (literal, target type) shapes on which Context::lit_into_ty / ident_into_ty panic although
-   the literal is well-typed IDL.  Each class is a registered finding of property C14 (pilota-build must generate
-   code that compiles for every supported IDL; here it does not generate at all), see /verif/known_findings.json and
-   fam/gen/FINDINGS.md ("Generator panics met while writing the corpus"):
+(* The decidable classes of (literal, target type) shapes on which Context::lit_into_ty / ident_into_ty still panic although
+   the literal is well-typed IDL, AFTER the repairs of F-14g (container literal inside container literal), F-14i (const of
+   set type), F-14l (enum member / const through a typedef'd target) and of the missing arms (Int at OrderedF64, string
+   const at a std String field).  What is left (property C14: the generator must not panic):
 
-     PCPathConvert     a const / enum-member reference whose CodegenTy is not syntactically the target's and is not one
-                       of the two conversions ident_into_ty knows: panic!("invalid convert").  F-14l is the instance
-                       "enum member at a typedef of the enum"; the same site answers a const used through a typedef,
-                       a string const at a `pilota.rust_type = "string"` field, and every const of list / set / map type
-                       (its type is Array / LazyStaticRef, never the field's Vec / AHashSet / AHashMap).
-     PCNestedMap       a map-typed target reached through lit_into_ty, i.e. anywhere but at the top of a default
-                       (element of a container literal, member of a struct literal, behind a typedef):
-                       panic!("unexpected literal").  F-14g.
-     PCNoArm           the other (literal kind, CodegenTy kind) pairs without an arm: an integer at a double that is
-                       a set element / map key (OrderedF64), a string at `binary` with rust_type = "vec", any literal at
-                       a `rust_wrapper_arc` type: panic!("unexpected literal").  FINDINGS.md, same paragraph as F-14g.
-     PCConstContainer  a StaticRef / LazyStaticRef type (const context only; consts of set type always panic: F-14i).
+     PCPathConvert     a const / enum-member reference that ident_into_ty cannot convert: panic!("invalid convert").  Left:
+                       a REFERENCE to a const of list / set / map type (its CodegenTy is Array / LazyStaticRef, never the
+                       field's Vec / AHashSet / AHashMap), a const of a typedef type used at the aliased type.  path_ok is a
+                       sufficient condition: the target itself, or the end of the target's typedef chain, is the const's type
+                       or one of the conversions; a const whose type is a typedef strictly INSIDE the chain is accepted by the
+                       generator but not by path_ok.
+     PCNestedMap       a map-typed target where only lit_into_ty looks: a map KEY that is a map (no Rust map is hashable),
+                       an element of a const Array, the definition of a const that is no lazy static.
+     PCNoArm           any literal at a `rust_wrapper_arc` type, a string at `binary` with rust_type = "vec".
+     PCConstContainer  a StaticRef / LazyStaticRef type (const context only).
      PCDangling        a reference to a const that does not exist (model artefact).
 
-   The classification over-approximates: [pclass_into l ty = None] is a SUFFICIENT condition for the lowering to succeed
-   on a well-typed literal (Proofs/LitP.v); every class has a witness that it does panic.  No proofs here. *)
+   [pclass_into en l ty = None] is a SUFFICIENT condition for the lowering to succeed on a well-typed literal
+   (Proofs/LitP.v); the three open classes have a witness that they do panic (Proofs/LitTopP.v).  No proofs here. *)
 From PVGen Require Export Lit.
 
 Inductive pclass := PCPathConvert | PCNestedMap | PCNoArm | PCConstContainer | PCDangling.
@@ -37,32 +35,66 @@ Definition first_class {A} (f : A -> option pclass) : list A -> option pclass :=
 Section Class.
   Variable S : lschema.
 
-  Fixpoint pclass_into (l : lit) (ty : cty) {struct l} : option pclass :=
+  Definition is_string_cty (ty : cty) : bool := match ty with CString => true | _ => false end.
+  Definition is_arc_cty (ty : cty) : bool := match ty with CArc _ => true | _ => false end.
+
+  (* may the path, whose CodegenTy is [it], be used at [ty]?  Syntactically the target, or the type at the end of the target's
+     typedef chain, or one of the conversions of ident_into_ty there.  (A const whose type is a typedef strictly inside
+     the chain is accepted by the generator too; it is left out of this sufficient condition.) *)
+  Definition path_ok (it ty : cty) : bool :=
+    let fin := peel S (pfuel S) ty in
+    cty_eqb it ty || (cty_eqb it fin && negb (is_arc_cty fin)) || (is_str_cty it && (is_faststr_cty fin || is_string_cty fin))
+    || (match ckind S it with Some CPAdtEnum => is_int_cty fin | _ => false end).
+
+  (* [en]: is the literal looked at by lit_as_rvalue (true) or by lit_into_ty only (false: map keys, elements of a const Array,
+     the definition of a const that is no lazy static) *)
+  Fixpoint pclass_into (en : bool) (l : lit) (ty : cty) {struct l} : option pclass :=
     match l with
-    | LMember e _ => if cty_eqb (CAdt e) ty || is_int_cty ty then None else Some PCPathConvert
+    | LMember e _ => if path_ok (CAdt e) ty then None else Some PCPathConvert
     | LConst c =>
         match ident_ty_of_const S c with
-        | Some it =>
-            if cty_eqb it ty || (is_str_cty it && is_faststr_cty ty)
-               || (match ckind S it with Some CPAdtEnum => is_int_cty ty | _ => false end)
-            then None else Some PCPathConvert
+        | Some it => if path_ok it ty then None else Some PCPathConvert
         | None => Some PCDangling
         end
     | _ =>
         match peel S (pfuel S) ty with
         | CArc _ => Some PCNoArm
-        | CMap _ _ | CBTreeMap _ _ => Some PCNestedMap
+        | CMap kt vt | CBTreeMap kt vt =>
+            if en || is_nt S ty then
+              match l with
+              | LMap m =>
+                  (fix go (m : list (lit * lit)) : option pclass :=
+                     match m with
+                     | [] => None
+                     | (k, v) :: r =>
+                         match pclass_into false k kt with
+                         | Some c => Some c
+                         | None => match pclass_into true v vt with Some c => Some c | None => go r end
+                         end
+                     end) m
+              | _ => None
+              end
+            else Some PCNestedMap
         | CStaticRef _ | CLazyStaticRef _ => Some PCConstContainer
-        | COrderedF64 => match l with LInt _ => Some PCNoArm | _ => None end
-        | CVec inner | CSet inner | CBTreeSet inner | CArray inner =>
+        | CVec inner | CSet inner | CBTreeSet inner =>
             match l with
             | LList els =>
                 (fix go (els : list lit) : option pclass :=
                    match els with
                    | [] => None
-                   | x :: r => match pclass_into x inner with Some c => Some c | None => go r end
+                   | x :: r => match pclass_into true x inner with Some c => Some c | None => go r end
                    end) els
             | LString _ => Some PCNoArm
+            | _ => None
+            end
+        | CArray inner =>
+            match l with
+            | LList els =>
+                (fix go (els : list lit) : option pclass :=
+                   match els with
+                   | [] => None
+                   | x :: r => match pclass_into false x inner with Some c => Some c | None => go r end
+                   end) els
             | _ => None
             end
         | CAdt n =>
@@ -80,7 +112,7 @@ Section Class.
                                  match fs with
                                  | [] => None
                                  | f :: fr =>
-                                     match (if bytes_eqb s (lf_name f) then pclass_into v (item_cty (lf_ty f)) else None) with
+                                     match (if bytes_eqb s (lf_name f) then pclass_into true v (item_cty (lf_ty f)) else None) with
                                      | Some c => Some c
                                      | None => over fr
                                      end
@@ -98,14 +130,8 @@ Section Class.
         end
     end.
 
-  (* at the top of a default (lit_as_rvalue): a map literal / `[]` at a map type is fine *)
-  Definition pclass_top (l : lit) (ty : cty) : option pclass :=
-    match ty, l with
-    | CMap kt vt, LMap m | CBTreeMap kt vt, LMap m =>
-        first_class (fun kv => match pclass_into (fst kv) kt with Some c => Some c | None => pclass_into (snd kv) vt end) m
-    | CMap _ _, LList _ | CBTreeMap _ _, LList _ => None
-    | _, _ => pclass_into l ty
-    end.
+  (* at the top of a default: lit_as_rvalue *)
+  Definition pclass_top (l : lit) (ty : cty) : option pclass := pclass_into true l ty.
 
   (* a const whose codegen type is the one a field of the same IDL type has (scalars, binary, enums, structs, typedefs)
      or a string: the consts a default can refer to without PCPathConvert *)
@@ -129,7 +155,7 @@ Section Class.
   Definition const_class_free (c : nat) : bool :=
     if const_simple c then
       match nth_error (ls_consts S) c, ident_ty_of_const S c with
-      | Some (_, l), Some it => match pclass_into l it with None => true | Some _ => false end
+      | Some (_, l), Some it => match pclass_into (should_lazy_static S it) l it with None => true | Some _ => false end
       | _, _ => false
       end
     else true.
